@@ -44,7 +44,7 @@ func TestC01(t *testing.T) {
 		for step := 0; step <= steps; step++ {
 			edit := e2e.Edit{Kind: "initial"}
 			if step > 0 {
-				next, e := e2e.ApplyRandomEdit(rng, state, e2e.EditOpts{AllowRevert: true, History: history, AllowBreak: true})
+				next, e := e2e.ApplyRandomEdit(rng, state, e2e.EditOpts{AllowRevert: true, History: history, AllowBreak: true, PreferFilegroupSrc: true})
 				if err := next.Sync(sb.Repo, state); err != nil {
 					panic(err)
 				}
@@ -63,6 +63,14 @@ func TestC01(t *testing.T) {
 			sb.ResetProbe()
 			res := sb.Plz(bin, nil, 120*time.Second, args...)
 			probe := sb.ReadProbe()
+			if res.Exit == 0 && rng.Intn(3) == 0 {
+				// the same invocation again on the untouched tree (hashes are now read back from what the first one
+				// recorded rather than computed); what it leaves behind is what gets compared below
+				if again := sb.Plz(bin, nil, 120*time.Second, args...); again.Exit != 0 {
+					res = again
+				}
+				r.Obs("repeated_invocations", 1)
+			}
 			trail = append(trail, stepRecord{step, edit, request, probe.Started})
 			ncmd := 0
 			for _, t := range state.Targets {
